@@ -47,6 +47,12 @@ from odxtools.endofpdufield import EndOfPduField
 from odxtools.dynamicendmarkerfield import DynamicEndmarkerField
 from odxtools.dynenddopref import DynEndDopRef
 from odxtools.multiplexer import Multiplexer
+from odxtools.dtcdop import DtcDop
+from odxtools.diagnostictroublecode import DiagnosticTroubleCode
+from odxtools.table import Table
+from odxtools.tablerow import TableRow
+from odxtools.parameters.tablekeyparameter import TableKeyParameter
+from odxtools.parameters.tablestructparameter import TableStructParameter
 from odxtools.multiplexercase import MultiplexerCase
 from odxtools.multiplexerdefaultcase import MultiplexerDefaultCase
 from odxtools.multiplexerswitchkey import MultiplexerSwitchKey
@@ -232,7 +238,47 @@ class Builder:
             d = self.dop(p["dop"])
             return mk(LengthKeyParameter, odx_id=oid(p["id"]),
                       dop_ref=OdxLinkRef.from_id(d.odx_id), dop_snref=None, **common)
+        if k == "system":
+            from odxtools.parameters.systemparameter import SystemParameter
+            d = self.dop(p["dop"])
+            return mk(SystemParameter, dop_ref=OdxLinkRef.from_id(d.odx_id), dop_snref=None,
+                      sysparam=p["sysparam"], **common)
+        if k == "tablekey":
+            t = self.table(p["table"])
+            row_ref = None
+            if p.get("row") is not None:
+                row = [r for r in t.table_rows_raw if r.short_name == p["row"]][0]
+                row_ref = OdxLinkRef.from_id(row.odx_id)
+            tk = mk(TableKeyParameter, odx_id=oid(p["id"]),
+                    table_ref=None if row_ref is not None else OdxLinkRef.from_id(t.odx_id),
+                    table_snref=None, table_row_ref=row_ref, table_row_snref=None, **common)
+            return tk
+        if k == "tablestruct":
+            return mk(TableStructParameter, table_key_ref=ref(p["key"]), table_key_snref=None,
+                      **common)
         raise ValueError(k)
+
+    def table(self, t):
+        if t["name"] in getattr(self, "_tables", {}):
+            return self._tables[t["name"]]
+        kd = self.dop(t["key_dop"])
+        tid = oid(t["name"] + "_id")
+        rows = []
+        for r in t["rows"]:
+            st = self.structure(r["structure"]) if r.get("structure") else None
+            rd = self.dop(r["dop"]) if r.get("dop") else None
+            rows.append(mk(TableRow, odx_id=oid(f"{t['name']}_{r['name']}_id"), short_name=r["name"],
+                           key_raw=str(r["key"]), table_ref=OdxLinkRef.from_id(tid),
+                           dop_ref=None if rd is None else OdxLinkRef.from_id(rd.odx_id),
+                           dop_snref=None,
+                           structure_ref=None if st is None else OdxLinkRef.from_id(st.odx_id),
+                           structure_snref=None))
+        tb = mk(Table, odx_id=tid, short_name=t["name"], key_dop_ref=OdxLinkRef.from_id(kd.odx_id),
+                table_rows_raw=list(rows))
+        self.objs.append(tb)
+        self._tables = getattr(self, "_tables", {})
+        self._tables[t["name"]] = tb
+        return tb
 
     def complex_or_dop(self, s):
         k = s.get("complex")
@@ -240,6 +286,18 @@ class Builder:
             return self.dop(s)
         if k == "structure":
             return self.structure(s)
+        if k == "dtc":
+            dct = diag_coded_type(s)
+            it = dct.base_data_type
+            cm = compu_method(s.get("cm", {}), it, it)
+            dtcs = [mk(DiagnosticTroubleCode, odx_id=oid(self.fresh("dtc")), short_name=d["name"],
+                       trouble_code=d["code"], text=d["name"]) for d in s["dtcs"]]
+            d = mk(DtcDop, odx_id=oid(self.fresh("dtcdop")), short_name=self.fresh("dtcdop"),
+                   diag_coded_type=dct, physical_type=PhysicalType(it, display_radix=None,
+                                                                   precision=None),
+                   compu_method=cm, dtcs_raw=list(dtcs), linked_dtc_dops_raw=[], is_visible_raw=None)
+            self.objs.append(d)
+            return d
         if k == "mux":
             kd = self.dop(s["key_dop"])
             cases = []
